@@ -18,7 +18,7 @@ def _dynamic_attrs(repo):
     return False
 from verif_sa.core import FileObj
 from .common import eq_const, guard_eq
-from verif_sa.dataflow import header_exprs
+from verif_sa.dataflow import header_exprs, all_values
 from verif_sa.cfg import block_always_exits
 
 PER_ITEM_PREFIXES = ("extra_",)
@@ -203,6 +203,8 @@ def A10_descending_contract(repo, clause):
     obs.append(Ob("A10", clause, callee, callee.node, not pm,
                   "the re-index helper %s its index argument `%s`; __delitem__ passes the SAME list for bonds, angles, dihedrals and impropers" % (
                       "MUTATES" if pm else "does not mutate", P), construct="def %s" % callee.name, slot="index-argument-not-mutated", positive=True))
+    obs.extend(_reindex_reached(repo, clause, callee, P, loops))
+    obs.extend(_row_indices_original(repo, clause, callee))
     for c in anys:
         obs.append(Ob("A10", clause, callee, c, call_name(c) == "any",
                       "a term is dropped when %s of its atoms is in the deleted set (must be ANY)" % call_name(c).upper(), slot="drop-quantifier"))
@@ -392,7 +394,7 @@ def A12_extend_bookkeeping(repo, clause):
             t = s.targets[0]
             ti = t.slice.elts[0] if isinstance(t.slice, ast.Tuple) else t.slice
             lhs_self = is_self_attr(t.value) and isinstance(ti, ast.Name) and ti.id == vs
-            rsub = [x for x in ast.walk(s.value) if isinstance(x, ast.Subscript)]
+            rsub = [x for x in ast.walk(expand(fn, s.value)) if isinstance(x, ast.Subscript)]
             rhs_other = False
             for x in rsub:
                 xi = x.slice.elts[0] if isinstance(x.slice, ast.Tuple) else x.slice
@@ -406,6 +408,30 @@ def A12_extend_bookkeeping(repo, clause):
         ok_i = good == len(stores) and good >= 1
         detail = "%d/%d stores in the identity-map loop write self[...self index...] from other[...other index...]" % (good, len(stores))
     obs.append(Ob("A12", clause, fn, loops[0] if loops else fn.node, ok_i, detail, slot="identity-adopts"))
+    # ... and they do so for EVERY identical atom: no path through the loop body skips a store, except the extra-field store when
+    # there are no extra fields at all
+    if loops:
+        for s_ in [n for n in ast.walk(loops[0]) if isinstance(n, ast.Assign) and isinstance(n.targets[0], ast.Subscript) and is_self_attr(n.targets[0].value)]:
+            attr = n_attr = s_.targets[0].value.attr
+            extra = []
+            for t, pol, k in norm_guards(fn, s_, stop=loops[0]):
+                txt = ast.unparse(t)
+                size_test = ("extra_atom_fields" in txt and (".size" in txt or "len(" in txt or ".shape" in txt)) and attr == "extra_atom_fields"
+                # skipping a store because the target already holds the value is a no-op
+                same_value = False
+                e_ = eq_const(t) if False else None
+                if isinstance(t, ast.Compare) and len(t.ops) == 1 and isinstance(t.ops[0], (ast.Eq, ast.NotEq)):
+                    sides = {ast.unparse(expand(fn, t.left)), ast.unparse(expand(fn, t.comparators[0]))}
+                    want_ = {ast.unparse(expand(fn, s_.targets[0])), ast.unparse(expand(fn, s_.value))}
+                    store_when_equal = (isinstance(t.ops[0], ast.Eq)) == bool(pol)
+                    same_value = sides == want_ and not store_when_equal
+                if not size_test and not same_value:
+                    extra.append((t, pol, k))
+            obs.append(Ob("A12", clause, fn, s_, not extra,
+                          "identical atoms: the store into self.%s is executed for every entry of the identity map%s" % (
+                              attr, "" if not extra else " -- NOT when `%s` is %s (%s): that atom keeps its old %s although it is now the other structure's atom" % (
+                                  ast.unparse(extra[0][0])[:60], extra[0][1], extra[0][2], "extra fields" if "extra" in attr else "type")),
+                          slot="identity-unconditional:%s" % attr, positive=bool(extra)))
     return obs
 
 
@@ -508,33 +534,119 @@ def A14b_fallback_axis(repo, clause):
 
 
 def _degenerate_axis_fallback(repo, clause):
-    """In the (anti)parallel case the rotation axis is cross(v1, helper).  A *constant* helper is parallel to
-    v1 for inputs that lie along it (zero axis, degenerate rotation); the helper must be random or depend on
-    the input."""
+    """The (anti)parallel case of quaternion_from_two_vectors: cross(v1, v2) vanishes and a perpendicular axis must be
+    made up.  Three obligations: (1) the case is detected with a *tolerance* on the cross product (an antiparallel pair
+    built by rotations is antiparallel only up to rounding noise); (2) the parallel case is excluded by a test on the
+    angle that does not rely on exact equality with pi; (3) the replacement axis is cross(v1, helper) with a random or
+    input-dependent helper - a constant helper, or any fixed *linear* construction from the components of v1 (which is
+    w x v1 for a fixed w), vanishes for inputs along some direction."""
     fn = repo.fn("quaternion_from_two_vectors")
     obs = []
-    sites = []
-    for n in fn.own_nodes():
-        if isinstance(n, ast.Assign) and isinstance(n.value, ast.Call) and call_name(n.value) == "cross":
-            gs = norm_guards(fn, n)
-            if any(pol and "isclose" in ast.unparse(t) for t, pol, k in gs):
-                sites.append(n)
+    # the axis variable: assigned from cross(a, b) at top level of the function
+    top = [n for n in fn.node.body if isinstance(n, ast.Assign) and isinstance(n.value, ast.Call) and call_name(n.value) == "cross"
+           and len(n.targets) == 1 and isinstance(n.targets[0], ast.Name)]
+    if len(top) != 1:
+        raise AnalysisError("A14: rotation axis (cross product of the two unit vectors) not found in quaternion_from_two_vectors")
+    axis = top[0].targets[0].id
+    v1 = ast.unparse(top[0].value.args[0]) if top[0].value.args else None
+    sites = [n for n in fn.own_nodes() if isinstance(n, ast.Assign) and len(n.targets) == 1 and isinstance(n.targets[0], ast.Name)
+             and n.targets[0].id == axis and n is not top[0] and isinstance(fn.parents.get(n), ast.If)]
     if len(sites) != 1:
         raise AnalysisError("A14: fallback axis construction for the (anti)parallel case not found in quaternion_from_two_vectors")
     n = sites[0]
-    args = [expand(fn, a) for a in n.value.args]
+    ifst = fn.parents.get(n)
+    test = expand(fn, ifst.test, stop_names=(axis,))
+    conj = test.values if isinstance(test, ast.BoolOp) and isinstance(test.op, ast.And) else [test]
+
+    def mentions(e, name):
+        return any(isinstance(x, ast.Name) and x.id == name for x in ast.walk(e))
+
+    # (1) tolerance on the cross product
+    axis_tests = [c for c in conj if mentions(c, axis)]
+    tol_ok = exact = None
+    for c in axis_tests:
+        calls = [x for x in ast.walk(c) if isinstance(x, ast.Call)]
+        if any(call_name(x) in ("isclose", "allclose") for x in calls):
+            tol_ok = c
+        elif any(isinstance(x, ast.Compare) and isinstance(x.ops[0], (ast.Lt, ast.LtE)) and any(call_name(y) == "norm" for y in ast.walk(x) if isinstance(y, ast.Call))
+                 for x in ast.walk(c)):
+            tol_ok = c
+        elif any(call_name(x) in ("any", "all", "count_nonzero", "array_equal") for x in calls) or \
+                any(isinstance(x, ast.Compare) and isinstance(x.ops[0], (ast.Eq, ast.NotEq)) for x in ast.walk(c)):
+            exact = c
+    ok1 = tol_ok is not None and exact is None
+    obs.append(Ob("A14", clause, fn, ifst, ok1,
+                  "degenerate-axis case detected by %s" % (
+                      "`%s` (tolerance on the cross product)" % ast.unparse(tol_ok)[:60] if ok1 else
+                      ("the EXACT zero test `%s`: vectors that are antiparallel only up to rounding noise (built by rotate/translate/wrap) are not detected and the noise is used as the rotation axis" % ast.unparse(exact)[:50]
+                       if exact is not None else "no recognised test of the cross product")),
+                  construct=ifst.test, slot="fallback-axis-detection", positive=exact is not None, undecided=exact is None))
+    # (2) exclusion of the parallel case
+    ang = [c for c in conj if not mentions(c, axis)]
+    ok2 = False
+    pos2 = False
+    d2 = "no test separating antiparallel from parallel"
+    for c in ang:
+        c0, pol = c, True
+        while isinstance(c0, ast.UnaryOp) and isinstance(c0.op, ast.Not):
+            c0, pol = c0.operand, not pol
+        if isinstance(c0, ast.Compare) and len(c0.ops) == 1:
+            op = type(c0.ops[0])
+            sides = [c0.left, c0.comparators[0]]
+            zero = any(const_value(x) == 0 for x in sides)
+            pi = any("pi" in ast.unparse(x) for x in sides)
+            if zero and ((op is ast.NotEq and pol) or (op is ast.Eq and not pol) or op in (ast.Gt, ast.Lt, ast.GtE, ast.LtE)):
+                ok2, d2 = True, "`%s` (the parallel case, angle 0, is excluded)" % ast.unparse(c)
+            elif pi and ((op is ast.Eq and pol) or (op is ast.NotEq and not pol)):
+                ok2, pos2 = False, True
+                d2 = "`%s`: EXACT equality of an arccos result with pi - a dot product of -0.9999999999999999 gives an angle just below pi, the fallback is skipped and the rotation collapses to the identity" % ast.unparse(c)
+            elif op in (ast.Gt, ast.GtE, ast.Lt, ast.LtE):
+                ok2, d2 = True, "`%s` (threshold test)" % ast.unparse(c)
+    obs.append(Ob("A14", clause, fn, ifst, ok2, "antiparallel case selected by %s" % d2, construct=ifst.test, slot="fallback-axis-angle-test", positive=pos2, undecided=not pos2))
+    # (3) the replacement axis
+    val = expand(fn, n.value)
 
     def is_const_vec(e):
         if isinstance(e, ast.Call) and call_name(e) in ("array", "asarray") and e.args:
             e = e.args[0]
         return isinstance(e, (ast.List, ast.Tuple)) and all(const_value(x) is not None for x in e.elts)
-    consts = [a for a in args if is_const_vec(a)]
-    rnd = any("random" in ast.unparse(a) for a in args)
-    ok = not consts
-    obs.append(Ob("A14", clause, fn, n, ok,
-                  "fallback axis = %s: helper is %s" % (ast.unparse(n.value)[:70], "random (never parallel to the input, almost surely)" if rnd else
-                                                     ("a CONSTANT vector: inputs along it give a zero axis and a degenerate rotation, so occurrences in that pose are lost" if consts
-                                                      else "input-dependent")), slot="fallback-axis-helper", positive=bool(consts)))
+
+    def linear_in_input(e):
+        if isinstance(e, ast.Call) and call_name(e) in ("array", "asarray") and e.args:
+            e = e.args[0]
+        if not isinstance(e, (ast.List, ast.Tuple)) or len(e.elts) != 3:
+            return False
+        for x in e.elts:
+            while isinstance(x, ast.UnaryOp) and isinstance(x.op, (ast.USub, ast.UAdd)):
+                x = x.operand
+            if const_value(x) is not None:
+                continue
+            if isinstance(x, ast.BinOp) and isinstance(x.op, ast.Mult):
+                parts = [y for y in (x.left, x.right) if const_value(y) is None]
+                if len(parts) != 1:
+                    return False
+                x = parts[0]
+            if isinstance(x, ast.Subscript) and const_value(x.slice) is not None:
+                continue
+            return False
+        return True
+
+    consts, rnd, lin = [], False, False
+    if isinstance(val, ast.Call) and call_name(val) == "cross":
+        args = [expand(fn, a_) for a_ in val.args]
+        consts = [a_ for a_ in args if is_const_vec(a_)]
+        rnd = any("random" in ast.unparse(a_) for a_ in args)
+        ok3 = not consts
+        kind = "random (never parallel to the input, almost surely)" if rnd else (
+            "a CONSTANT vector: inputs along it give a zero axis and a degenerate rotation, so occurrences in that pose are lost" if consts else "input-dependent")
+        d3 = "fallback axis = %s: helper is %s" % (ast.unparse(n.value)[:70], kind)
+    else:
+        lin = linear_in_input(val)
+        ok3 = False
+        d3 = "fallback axis = %s: %s" % (ast.unparse(n.value)[:70],
+                                         "a FIXED LINEAR construction from the components of the input (it equals w x v for one fixed w): it is the zero vector for inputs along w, the rotation degenerates and occurrences in that pose are lost"
+                                         if lin else "not a cross product with a helper vector")
+    obs.append(Ob("A14", clause, fn, n, ok3, d3, slot="fallback-axis-helper", positive=bool(consts) or lin, undecided=not (bool(consts) or lin)))
     return obs
 
 
@@ -673,6 +785,17 @@ def A17_mass_guess(repo, clause):
                     elif isinstance(n, ast.Call) and call_name(n) in ("isclose", "allclose") and any(isinstance(x, ast.Name) and x.id == tolname for x in ast.walk(n)):
                         if all(n is not t2 for _, t2 in tests):
                             tests.append((f, n))
+    for f in [outer] + [c for c in cands if c is not outer]:
+        for comp in [x for x in f.own_nodes() if isinstance(x, ast.comprehension)]:
+            for cond in comp.ifs:
+                for n in ast.walk(cond):
+                    if isinstance(n, ast.Compare) and any(isinstance(x, ast.Name) and x.id == tolname for x in ast.walk(n)) \
+                            and not any(isinstance(x, ast.Call) and call_name(x) in ("isclose", "allclose") for x in ast.walk(n)):
+                        if all(n is not t2 for _, t2 in tests):
+                            tests.append((f, n))
+                    elif isinstance(n, ast.Call) and call_name(n) in ("isclose", "allclose") and any(isinstance(x, ast.Name) and x.id == tolname for x in ast.walk(n)):
+                        if all(n is not t2 for _, t2 in tests):
+                            tests.append((f, n))
     floor("A17", "tolerance tests", len(tests), 1)
     for f, t in tests:
         two_sided, why = _two_sided(t, tolname)
@@ -708,8 +831,34 @@ def A17_mass_guess(repo, clause):
             keyed = kwarg(n, "key") is not None or call_name(n) == "argmin"
             txt = ast.unparse(expand(f, n))
             has_abs = "abs(" in txt or "fabs(" in txt or "np.abs" in txt
-            obs.append(Ob("A17", clause, f, n, keyed and has_abs,
-                          "element is chosen by %s over the absolute mass difference (nearest entry)=%s" % (call_name(n), keyed and has_abs), slot="nearest"))
+            keyx = kwarg(n, "key")
+            crit = None            # the expression the candidates are ranked by
+            if keyx is not None:
+                kx = expand(f, keyx)
+                if isinstance(kx, ast.Lambda):
+                    crit = kx.body
+                elif isinstance(kx, ast.Attribute) and kx.attr in ("get", "__getitem__"):
+                    dx = expand(f, kx.value)
+                    crit = dx.value if isinstance(dx, ast.DictComp) else None
+                    if crit is None and isinstance(dx, ast.Dict):
+                        crit = ast.Tuple(elts=list(dx.values), ctx=ast.Load())
+            elif n.args:
+                it = expand(f, n.args[0])
+                if isinstance(it, (ast.GeneratorExp, ast.ListComp)):
+                    crit = it.elt.elts[0] if isinstance(it.elt, ast.Tuple) and it.elt.elts else it.elt
+                elif call_name(n) == "argmin":
+                    crit = it
+            key_src = ast.unparse(crit) if crit is not None else (ast.unparse(keyx) if keyx is not None else "")
+            tparams = [p_ for p_ in f.params if p_ != tolname]
+            mentions_target = crit is not None and any(isinstance(x, ast.Name) and x.id in tparams for x in ast.walk(crit))
+            keyed = crit is not None
+            has_abs = crit is not None and any(isinstance(x, ast.Call) and call_name(x) in ("abs", "fabs", "absolute") for x in ast.walk(crit))
+            blind = call_name(n) in ("min", "sorted", "nsmallest", "argmin") and not mentions_target
+            obs.append(Ob("A17", clause, f, n, keyed and has_abs and not blind,
+                          "element is chosen by %s over the absolute mass difference (nearest entry)=%s%s" % (
+                              call_name(n), keyed and has_abs and not blind,
+                              "" if not blind else " -- the ranking criterion `%s` does NOT depend on the mass being looked up: it picks the lightest / first qualifying entry, not the nearest" % (key_src or "(natural order)")),
+                          slot="nearest", positive=blind))
         elif best_loop is not None:
             f, lp, t = best_loop
             obs.append(Ob("A17", clause, f, t, True, "element is chosen by a best-so-far scan over the absolute mass difference", slot="nearest"))
@@ -897,6 +1046,8 @@ def A18_cli_wiring(repo, clause):
     mic_c = [c for c in reps if c.args and "mic" in ast.unparse(expand(fn, c.args[0]))]
     ok = len(mic_c) == 1 and any(pol and is_none_test(t, "mic") == "isnot" for t, pol, k in norm_guards(fn, mic_c[0]))
     obs.append(Ob("A18", clause, fn, mic_c[0] if mic_c else fn.node, ok, "minimum-image cutoff determines the second replication (only when given)", slot="flow:mic"))
+    if mic_c:
+        obs.append(_mic_formula(fn, clause, mic_c[0]))
     ppc = [c for c in calls_in(fn) if call_name(c) == "assign_pair_params_to_structure"]
     ok = len(ppc) == 1 and any(pol and isinstance(t, ast.Name) and t.id == "pp" for t, pol, k in norm_guards(fn, ppc[0]))
     obs.append(Ob("A18", clause, fn, ppc[0] if ppc else fn.node, ok, "--pp triggers pair-coefficient assignment", slot="flow:pp"))
@@ -1130,4 +1281,229 @@ def A20_cif_api(repo, clause):
                                       cls, c.func.attr, "exists" if ok else "DOES NOT EXIST (AttributeError on every call)", api.version, api.mro(cls)),
                                   construct="%s.%s(...)" % (recv, c.func.attr), slot="%s.%s" % (cls, c.func.attr), positive=True))
     floor("A20", "CIF library calls", n, 8)
+    return obs
+
+
+def _mic_formula(fn, clause, call):
+    """The replication count that makes every cell length >= 2*mic is ceil(2*mic / length): `floor(x) + 1` replicates once too
+    often exactly when 2*mic is a multiple of a cell length, round/floor replicate too little."""
+    e = expand(fn, call.args[0])
+    # strip integer conversions
+    while True:
+        if isinstance(e, ast.Call) and call_name(e) in ("array", "asarray", "int", "astype", "int_", "int64") and (e.args or isinstance(e.func, ast.Attribute)):
+            if call_name(e) == "astype" and isinstance(e.func, ast.Attribute):
+                e = e.func.value
+            else:
+                e = e.args[0]
+            continue
+        break
+    ok = False
+    positive = False
+    why = "not recognised as ceil(2*mic / cell lengths)"
+
+    def is_ratio(x):
+        if isinstance(x, ast.BinOp) and isinstance(x.op, ast.Div):
+            num = nf(x.left)
+            two_mic = nf(ast.parse("2*mic", mode="eval").body)
+            return same(x.left, ast.parse("2*mic", mode="eval").body) or repr(num) == repr(two_mic)
+        return False
+    if isinstance(e, ast.Call) and call_name(e) == "ceil" and e.args and is_ratio(e.args[0]):
+        den = e.args[0].right
+        ok = isinstance(den, ast.Call) and call_name(den) == "diag"
+        why = "ceil(2*mic / np.diag(cell))" if ok else "ceil(2*mic / %s): the divisor is not the cell diagonal" % ast.unparse(den)[:40]
+    else:
+        txt = ast.unparse(e)
+        has_floor = any(isinstance(x, ast.BinOp) and isinstance(x.op, ast.FloorDiv) for x in ast.walk(e)) or \
+            any(isinstance(x, ast.Call) and call_name(x) in ("floor", "floor_divide", "trunc", "fix") for x in ast.walk(e))
+        has_round = any(isinstance(x, ast.Call) and call_name(x) in ("round", "rint", "around") for x in ast.walk(e))
+        if has_floor or has_round:
+            positive = True
+            why = "`%s` is %s, not the ceiling: %s" % (txt[:60], "floor(...)+k" if has_floor else "rounding",
+                                                      "when 2*mic is an exact multiple of a cell length it replicates once more than needed (or once too little without the +1)"
+                                                      if has_floor else "cells just below the threshold are not replicated")
+    return Ob("A18", clause, fn, call, ok, "minimum-image replication factor: %s" % why, slot="mic-formula", positive=positive, undecided=not positive)
+
+
+def A18b_pair_params_parallel(repo, clause):
+    """--pp: pair coefficients and type labels are produced one per atom TYPE, in type order: both derive from
+    structure.atom_type_elements through comprehensions without filter and without any container that merges equal keys."""
+    fn = repo.fn("assign_pair_params_to_structure")
+    obs = []
+    S = fn.params[0]
+    stores = {}
+    for n in fn.own_nodes():
+        if isinstance(n, ast.Assign) and len(n.targets) == 1 and isinstance(n.targets[0], ast.Attribute) and isinstance(n.targets[0].value, ast.Name) \
+                and n.targets[0].value.id == S:
+            stores[n.targets[0].attr] = n
+    for attr in ("pair_coeffs", "atom_type_labels"):
+        if attr not in stores:
+            obs.append(Ob("A18b", clause, fn, fn.node, False, "assign_pair_params_to_structure does not set structure.%s" % attr,
+                          construct="structure.%s = ..." % attr, slot="parallel:%s" % attr, positive=True))
+            continue
+        st = stores[attr]
+        merged = None
+        src = None
+        e = st.value
+        hops = 0
+        while hops < 8:
+            hops += 1
+            e = expand(fn, e) if not isinstance(e, ast.Name) else e
+            if isinstance(e, ast.Name):
+                # a list filled by unconditional appends in one loop is a comprehension over that loop's iterable
+                apps = [c_ for c_ in method_calls_on(fn, e.id, "append")]
+                if apps:
+                    loops_ = [[a_ for a_ in fn.ancestors(c_) if isinstance(a_, (ast.For, ast.If, ast.While, ast.Try))] for c_ in apps]
+                    if len(apps) == 1 and len(loops_[0]) == 1 and isinstance(loops_[0][0], ast.For):
+                        e = loops_[0][0].iter
+                        continue
+                    break
+                vals = all_values(fn, e)
+                if not vals or len(vals) != 1:
+                    break
+                e = vals[0]
+                continue
+            if isinstance(e, (ast.DictComp, ast.SetComp, ast.Dict, ast.Set)) and not (isinstance(e, ast.Dict) and not e.keys):
+                merged = e
+                break
+            if isinstance(e, ast.Call) and call_name(e) in ("set", "dict", "fromkeys", "unique", "frozenset", "OrderedDict"):
+                merged = e
+                break
+            if isinstance(e, ast.Call) and call_name(e) in ("values", "keys", "items") and isinstance(e.func, ast.Attribute):
+                e = e.func.value
+                merged_candidate = e
+                # a dict view: follow to the dict's definition
+                continue
+            if isinstance(e, ast.Call) and call_name(e) in ("list", "tuple", "array") and e.args:
+                e = e.args[0]
+                continue
+            if isinstance(e, (ast.ListComp, ast.GeneratorExp)):
+                if len(e.generators) != 1 or e.generators[0].ifs:
+                    break
+                e = e.generators[0].iter
+                continue
+            if isinstance(e, ast.Attribute) and isinstance(e.value, ast.Name) and e.value.id == S:
+                src = e.attr
+                break
+            break
+        ok = src == "atom_type_elements" and merged is None
+        if merged is not None:
+            d = "goes through `%s`, a container that MERGES equal keys: two atom types of the same element yield one entry, so the per-type lists come out too short and misnumbered" % ast.unparse(merged)[:60]
+        elif ok:
+            d = "is derived one-to-one from structure.atom_type_elements (comprehensions without filter)"
+        else:
+            d = "derivation from structure.atom_type_elements not recognised (stopped at `%s`)" % ast.unparse(e)[:50]
+        obs.append(Ob("A18b", clause, fn, st, ok, "structure.%s %s" % (attr, d), slot="parallel:%s" % attr, positive=merged is not None, undecided=merged is None))
+    return obs
+
+
+def _is_emptiness(t):
+    """len(x) == 0 / x.size == 0 / len(x) < 1 / not x.size ..."""
+    txt = ast.unparse(t)
+    if isinstance(t, ast.Compare) and len(t.ops) == 1:
+        sides = [t.left, t.comparators[0]]
+        has_len = any((isinstance(x, ast.Call) and call_name(x) == "len") or (isinstance(x, ast.Attribute) and x.attr in ("size",)) for x in sides)
+        has_small = any(const_value(x) in (0, 1) for x in sides)
+        return has_len and has_small
+    if isinstance(t, ast.BoolOp):
+        return all(_is_emptiness(v) for v in t.values)
+    if isinstance(t, ast.Attribute) and t.attr == "size":
+        return True
+    if isinstance(t, ast.Call) and call_name(t) == "len":
+        return True
+    return False
+
+
+def _reindex_reached(repo, clause, callee, P, loops):
+    """Every normal return of the helper is preceded by the re-index loop, except on paths on which there is nothing to
+    re-index (an emptiness test).  A value-dependent shortcut in front of the loop is judged against the ordering contract:
+    `P[0] > x` reads P[0] as the SMALLEST deleted index, but every caller passes the list in DESCENDING order."""
+    obs = []
+    cfg = callee.cfg
+    if not loops:
+        return obs
+    lp = loops[0]
+    for r in [n for n in callee.own_nodes() if isinstance(n, ast.Return)]:
+        if cfg.dominates(lp, r):
+            continue
+        bad = None
+        belief = None
+        for t, pol, k in norm_guards(callee, r):
+            if _is_emptiness(t):
+                continue
+            bad = (t, pol)
+            for x in ast.walk(t):
+                if isinstance(x, ast.Compare) and len(x.ops) == 1:
+                    l, rr = x.left, x.comparators[0]
+                    def first_of_P(e):
+                        return isinstance(e, ast.Subscript) and isinstance(e.value, ast.Name) and e.value.id == P and const_value(e.slice) == 0
+                    def last_of_P(e):
+                        return isinstance(e, ast.Subscript) and isinstance(e.value, ast.Name) and e.value.id == P and const_value(e.slice) == -1
+                    if (first_of_P(l) and isinstance(x.ops[0], (ast.Gt, ast.GtE))) or (first_of_P(rr) and isinstance(x.ops[0], (ast.Lt, ast.LtE))):
+                        belief = "`%s` treats %s[0] as the SMALLEST deleted index" % (ast.unparse(x), P)
+                    if (last_of_P(l) and isinstance(x.ops[0], (ast.Lt, ast.LtE))) or (last_of_P(rr) and isinstance(x.ops[0], (ast.Gt, ast.GtE))):
+                        belief = "`%s` treats %s[-1] as the LARGEST deleted index" % (ast.unparse(x), P)
+            break
+        if bad is None:
+            obs.append(Ob("A10", clause, callee, r, True, "early return without re-indexing only when there is nothing to re-index (emptiness test)", slot="reindex-reached"))
+        else:
+            obs.append(Ob("A10", clause, callee, r, False,
+                          "the helper returns WITHOUT re-indexing when `%s` is %s%s" % (
+                              ast.unparse(bad[0])[:70], bad[1],
+                              "; %s, but every caller passes the list sorted in DESCENDING order (the contract of the iterative re-index): the shortcut fires while smaller deleted indices are still pending and surviving terms keep stale atom indices" % belief
+                              if belief else " (a value-dependent shortcut that this rule cannot justify)"),
+                          slot="reindex-reached", positive=belief is not None, undecided=belief is None))
+    return obs
+
+
+def _row_indices_original(repo, clause, callee):
+    """The row numbers handed back to __delitem__ (which applies them to the *_types and extra_*_fields arrays of the ORIGINAL
+    length) must be row numbers of the original term array: they may not be computed from an array from which rows have
+    already been removed."""
+    obs = []
+    cfg = callee.cfg
+    rets = [r for r in callee.own_nodes() if isinstance(r, ast.Return) and isinstance(r.value, ast.Tuple) and len(r.value.elts) == 2]
+    if not rets:
+        return obs
+    L = rets[-1].value.elts[1]
+    if not isinstance(L, ast.Name):
+        return obs
+    L = L.id
+    adds = []
+    for n in callee.own_nodes():
+        if isinstance(n, ast.Call) and isinstance(n.func, ast.Attribute) and n.func.attr in ("append", "extend") and isinstance(n.func.value, ast.Name) \
+                and n.func.value.id == L and n.args:
+            adds.append((callee.stmt_of(n), n.args[0]))
+        elif isinstance(n, ast.AugAssign) and isinstance(n.target, ast.Name) and n.target.id == L:
+            adds.append((n, n.value))
+    shrinks = {}
+    for n in callee.own_nodes():
+        if isinstance(n, ast.Assign) and len(n.targets) == 1 and isinstance(n.targets[0], ast.Name) and isinstance(n.value, ast.Call) \
+                and call_name(n.value) == "delete" and n.value.args and isinstance(n.value.args[0], ast.Name) and n.value.args[0].id == n.targets[0].id:
+            shrinks.setdefault(n.targets[0].id, []).append(n)
+    for st, val in adds:
+        # arrays the index value is computed from
+        srcs = set()
+        work = [val]
+        seen = set()
+        while work:
+            e = work.pop()
+            for x in ast.walk(e):
+                if isinstance(x, ast.Name) and isinstance(x.ctx, ast.Load) and x.id not in seen:
+                    seen.add(x.id)
+                    srcs.add(x.id)
+                    if callee.stmt_of(x) is not None:
+                        for d in callee.rd.defs_of_use(x):
+                            if isinstance(d, ast.Assign):
+                                work.append(d.value)
+                            elif isinstance(d, ast.For):
+                                work.append(d.iter)
+        stale = None
+        for nm in sorted(srcs):
+            for sh in shrinks.get(nm, []):
+                if cfg.reaches(sh, st):
+                    stale = (nm, sh)
+        obs.append(Ob("A10", clause, callee, st, stale is None,
+                      "row numbers added to `%s` are computed from %s" % (L, "the term array as it was passed in" if stale is None else
+                                                                        "`%s` AFTER rows have been removed from it (`%s`): they index the shrunk array, but __delitem__ deletes those rows from the full-length type and extra-field arrays - surviving terms get another term's type" % (stale[0], ast.unparse(stale[1])[:60])),
+                      slot="row-indices-original", positive=stale is not None))
     return obs
